@@ -303,3 +303,28 @@ Proof.
   split; [|vm_compute; reflexivity]. intros tn' t p tp H. vm_compute in H. inversion H; subst.
   split; intros _; [vm_compute|]; reflexivity.
 Qed.
+
+(* ---- REFUTED without [nohslash host] ----
+   A Host containing '/' makes the hostname pass take the "/"-subtree (the PATH-ONLY routes) as a
+   hostname edge: getEdge(host[0]) at the method root and the split test getEdge('/') after the walk
+   do not distinguish hostname nodes from path nodes.  Routes example.com/, /x, /x/y; Host "/x",
+   path "/y": M1 (and fox: 200, pattern /x/y) serve the path-only route /x/y although the request path
+   is /y; the specification answers "no route".  (net/http's server rejects such a Host header for
+   HTTP/1; r.Host set by middleware, tests or other front-ends is not checked.) *)
+Definition wit_slash_txn : txn := build [mk_rih "example.com/" 1 0; mk_rih "/x" 2 0; mk_rih "/x/y" 3 0].
+Theorem M1_eq_Spec_host_slash_refuted :
+  exists r m i root host path fuel,
+    method_index r m = Some i /\ nth_error r i = Some root /\ nroute root = None /\ hroot_ok root /\
+    pathok path = true /\ root_side path root /\ root_fuel path root <= fuel /\ ~ nohslash host /\
+    direct_obs (roots_lookup fuel r m host path false [] []) = Some (S2B "/x/y", []) /\
+    sres_direct (spec_lookup (method_patterns r m) host path) = None /\
+    spec_lookup (method_patterns r m) host path = SNone.
+Proof.
+  exists (t_roots wit_slash_txn), m_get, 0, (get_root wit_slash_txn), (S2B "/x"), (S2B "/y"), big_fuel.
+  split; [reflexivity|]. split; [reflexivity|]. split; [reflexivity|].
+  split; [apply hroot_okb_sound; vm_compute; reflexivity|]. split; [reflexivity|].
+  split; [left; vm_compute; reflexivity|]. split; [apply Nat.leb_le; vm_compute; reflexivity|].
+  split; [intros H; apply (H "/"); [left; reflexivity|reflexivity]|].
+  vm_compute. repeat split.
+Qed.
+Print Assumptions M1_eq_Spec_host_slash_refuted.
